@@ -110,21 +110,17 @@ func (lr *labelRes) tagNames(v ssa.Value, depth int) ([]string, bool) {
 		if sc == lr.tagFn {
 			return p.stringValues(x.Common().Args[0], 0)
 		}
-		if sc.Blocks == nil || !types.Identical(sc.Signature.Results().At(0).Type(), lr.tType) || sc.Signature.Results().Len() != 1 {
+		if sc.Signature.Results().Len() != 1 {
 			return nil, false
 		}
-		// helper returning a tag: union over its returns
-		var out []string
-		for _, b := range sc.Blocks {
-			if ret, ok := b.Instrs[len(b.Instrs)-1].(*ssa.Return); ok {
-				ns, ok := lr.tagNames(ret.Results[0], depth+1)
-				if !ok {
-					return nil, false
-				}
-				out = append(out, ns...)
-			}
+		return lr.helperResult(sc, 0, depth)
+	case *ssa.Extract:
+		// one result of a helper with several results: union over the helper's returns at that position
+		c, ok := x.Tuple.(*ssa.Call)
+		if !ok || c.Common().StaticCallee() == nil {
+			return nil, false
 		}
-		return uniq(out), len(out) > 0
+		return lr.helperResult(c.Common().StaticCallee(), x.Index, depth)
 	case *ssa.Phi:
 		var out []string
 		for _, e := range x.Edges {
@@ -253,6 +249,24 @@ func (lr *labelRes) tagNames(v ssa.Value, depth int) ([]string, bool) {
 		return uniq(out), true
 	}
 	return nil, false
+}
+
+// helperResult: label names of result #idx of a local helper, as the union over its returns.
+func (lr *labelRes) helperResult(sc *ssa.Function, idx int, depth int) ([]string, bool) {
+	if sc.Blocks == nil || idx >= sc.Signature.Results().Len() || !types.Identical(sc.Signature.Results().At(idx).Type(), lr.tType) {
+		return nil, false
+	}
+	var out []string
+	for _, b := range sc.Blocks {
+		if ret, ok := b.Instrs[len(b.Instrs)-1].(*ssa.Return); ok && b.Comment != "recover" {
+			ns, ok := lr.tagNames(ret.Results[idx], depth+1)
+			if !ok {
+				return nil, false
+			}
+			out = append(out, ns...)
+		}
+	}
+	return uniq(out), len(out) > 0
 }
 
 // sliceLabels resolves a []metrics.T value to the list of label-name sets of its elements, in order.
